@@ -609,3 +609,28 @@ func (e *Env) SecretStates(secrets []string) (map[string]string, error) {
 	}
 	return out, nil
 }
+
+// AbortInsert makes the next inserts of the row with column = value into table fail inside the storage
+// layer (a BEFORE INSERT trigger that raises ABORT, installed through a second connection): a storage error
+// in the middle of a multi-row write, which replacing the whole call by an error cannot produce. The
+// returned function removes the trigger again.
+func (e *Env) AbortInsert(table, column, value string) (func(), error) {
+	p := filepath.Join(e.Dir, "mint.sqlite.db")
+	db, err := sql.Open("sqlite3", "file:"+p+"?_busy_timeout=5000")
+	if err != nil {
+		return nil, err
+	}
+	name := "verif_abort_" + table
+	stmt := fmt.Sprintf("CREATE TRIGGER %s BEFORE INSERT ON %s WHEN NEW.%s = '%s' BEGIN SELECT RAISE(ABORT, 'VERIF-INJECTED-FAULT in the middle of the write'); END;", name, table, column, strings.ReplaceAll(value, "'", "''"))
+	if _, err := db.Exec(stmt); err != nil {
+		db.Close()
+		return nil, err
+	}
+	db.Close()
+	return func() {
+		if db, err := sql.Open("sqlite3", "file:"+p+"?_busy_timeout=5000"); err == nil {
+			db.Exec("DROP TRIGGER IF EXISTS " + name)
+			db.Close()
+		}
+	}, nil
+}
